@@ -27,6 +27,8 @@ pub enum Op {
     Debug,
     /// `==` against the twin (C10)
     Eq,
+    /// JitterRng::test_timer followed by set_rounds(result) (C14 hostile histories)
+    TestTimer,
 }
 
 impl Op {
@@ -44,6 +46,7 @@ impl Op {
             Op::CloneThen(_) => 10,
             Op::Debug => 11,
             Op::Eq => 12,
+            Op::TestTimer => 13,
         }
     }
 }
